@@ -30,13 +30,16 @@ BASE = 'hail/python/hail/ir/base_ir.py'
 IRPY = 'hail/python/hail/ir/ir.py'
 PARSER = 'hail/hail/src/is/hail/expr/ir/Parser.scala'
 
-# (family, max new nodes, shadowed binder names, shard depth)
+# (family, max new nodes, shadowed binder names, shard depth, built through the hl.* expression API)
 PLAN = {
-    'quick': [('value', 3, False, 2), ('strict', 3, False, 2), ('agg', 3, False, 2), ('scan', 3, False, 2),
-              ('aggcore', 4, False, 2), ('scancore', 5, False, 3), ('value-core', 3, True, 2)],
-    'thorough': [('strict', 4, False, 3), ('agg', 4, False, 3), ('scan', 4, False, 3), ('bind4', 4, False, 3),
-                 ('let5', 5, False, 4), ('if5', 5, False, 3), ('aggcore', 5, False, 3), ('scancore', 6, False, 4),
-                 ('value', 3, False, 2), ('value-core', 3, True, 2), ('agg', 3, True, 2)],
+    'quick': [('value', 3, False, 2, False), ('strict', 3, False, 2, False), ('agg', 3, False, 2, False),
+              ('scan', 3, False, 2, False), ('aggcore', 4, False, 2, False), ('scancore', 5, False, 3, False),
+              ('value-core', 3, True, 2, False), ('value-core', 3, False, 2, True)],
+    'thorough': [('strict', 4, False, 3, False), ('agg', 4, False, 3, False), ('scan', 4, False, 3, False),
+                 ('bind4', 4, False, 3, False), ('let5', 5, False, 4, False), ('if5', 5, False, 3, False),
+                 ('aggcore', 5, False, 3, False), ('scancore', 6, False, 4, False), ('value', 3, False, 2, False),
+                 ('value-core', 3, True, 2, False), ('agg', 3, True, 2, False), ('value-core', 3, False, 2, True),
+                 ('bind4', 4, False, 3, True)],
 }
 WORKERS = 8
 _RANK = ['discharged', 'known', 'not_discharged', 'violated']
@@ -69,9 +72,9 @@ def _encode_sources(R):
 
 
 def _task(args):
-    family, n, shadow, pins = args
+    family, n, shadow, pins, api = args
     from harness import C35_run
-    return C35_run.run_shard(family, n, shadow, pins)
+    return C35_run.run_shard(family, n, shadow, pins, api=api)
 
 
 def run(R):
@@ -79,9 +82,9 @@ def run(R):
     plan = PLAN[R.tier]
     _encode_sources(R)
     R.bounds = {
-        'families': {f'{fam}{"/shadowed-names" if sh else ""}': {'max_new_nodes': n, 'kinds': C35_shapes.FAMILIES[fam]['kinds'],
-                                                                   'leaf_pool': C35_shapes.FAMILIES[fam]['leaves']}
-                     for fam, n, sh, _ in plan},
+        'families': {f'{fam}{"/shadowed-names" if sh else ""}{"/via-hl-API" if api else ""}': {
+            'max_new_nodes': n, 'kinds': C35_shapes.FAMILIES[fam]['kinds'], 'leaf_pool': C35_shapes.FAMILIES[fam]['leaves']}
+            for fam, n, sh, _, api in plan},
         'arrays': 'free arrays A (int32) and B (int64): 2 symbolic elements, each present or absent (length 0..2); '
                   'MakeArray of 2 elements',
         'integers': 'int32 / int64 as 32 / 64-bit bit-vectors (wrapping), all values',
@@ -90,6 +93,8 @@ def run(R):
     }
     R.assume('IR text semantics is the harness evaluator vt/irsem.py (total, no missing values; Let/AggLet strict); node '
              'argument layouts follow the Scala IRParser cases, which are checked to exist each run',
+             'families marked via-hl-API build the same shapes with hl.* calls (operators, if_else, bind, struct, array, '
+             'map/filter/fold, len) on expression variables; the others call the hail.ir constructors directly',
              'binder names are unique per binder as Env.get_uid() makes them (families marked shadowed-names reuse one '
              'name for every binder: IR-level only, the Python API cannot produce it)',
              'aggregations: only Sum, AggFilter, AggLet, StreamAgg, StreamAggScan (exclusive prefix) are modelled; '
@@ -101,9 +106,9 @@ def run(R):
     R.extra['trusted_base'] = ['z3', 'vt/irsem.py reader+evaluator', 'vt/shapex.py explorer',
                                'harness/C35_shapes.py builder well-formedness (types, scopes)']
     tasks = []
-    for fam, n, sh, depth in plan:
+    for fam, n, sh, depth, api in plan:
         for pins in C35_run.shard_prefixes(fam, n, sh, depth):
-            tasks.append((fam, n, sh, pins))
+            tasks.append((fam, n, sh, pins, api))
     R.log(f'[C35] {len(tasks)} shards')
     ctx = multiprocessing.get_context('spawn')
     results = []
@@ -117,7 +122,7 @@ def run(R):
     suppressed = {}
     for r in results:
         st = r['stats']
-        name = (f"{r['family']}{'/shadowed' if r['shadow'] else ''} N<={r['n']} c[0..]={r['pins']}: "
+        name = (f"{r['family']}{'/shadowed' if r['shadow'] else ''}{'/via-hl-API' if r['api'] else ''} N<={r['n']} c[0..]={r['pins']}: "
                 f"CSE text == plain text in value, scope and context")
         for k in ('paths', 'with_lets', 'identical_text', 'syntactic_ok', 'with_agg_lets', 'with_scan_lets'):
             tot[k] += st[k]
@@ -149,7 +154,7 @@ def run(R):
                 per_class[cls] = per_class.get(cls, 0) + 1
                 what = (f"{c['shape']} [{c['family']}] {c['kind']}: {c['why'] or msg.splitlines()[0]}; leaves={_short(c['leaves'])}; "
                         f"cse={c['cse'][:240]}")
-                st_ = R.finding(cls, what, {k: c[k] for k in ('family', 'n', 'shadow', 'choices', 'leaves', 'shape')})
+                st_ = R.finding(cls, what, {k: c[k] for k in ('family', 'n', 'shadow', 'api', 'choices', 'leaves', 'shape')})
             detail.setdefault('findings', []).append({'class': cls, 'shape': c['shape'], 'kind': c['kind']})
             status = max(status, st_, key=_RANK.index)
         if r.get('truncated'):
